@@ -270,6 +270,7 @@ type envLeaf struct {
 	envTag  string   // dialsenv tag on the leaf ("" if none)
 	typ     reflect.Type
 	aliasOf string
+	envOnly bool // the alias comes from a `dialsenvalias` tag: only the environment source knows it
 }
 
 type envTypeGen struct {
@@ -397,6 +398,16 @@ func (g *envTypeGen) genStruct(depth int, path, words []string) reflect.Type {
 					g.used[adoc] = true
 					tagParts = append(tagParts, fmt.Sprintf(`dialsalias:"old_n%d"`, len(g.leaves)))
 					leaf.aliasOf = adoc
+				}
+			}
+			if g.alias && leaf.aliasOf == "" && r.Chance(9) {
+				// a source-specific alias: the variable named by the tag, verbatim, is the alias - in the environment
+				// source only; next to fields with a plain `dialsalias` it must not leak into THEIR alias names
+				adoc := fmt.Sprintf("LEGACY_%d", len(g.leaves))
+				if !g.used[adoc] {
+					g.used[adoc] = true
+					tagParts = append(tagParts, fmt.Sprintf(`dialsenvalias:%q`, adoc))
+					leaf.aliasOf, leaf.envOnly = adoc, true
 				}
 			}
 			if g.alias && g.shorts < 20 && r.Chance(12) {
